@@ -468,7 +468,9 @@ wait:
 
 // runRealOnce runs one repetition of a script in real time, outside any bubble (the process was started with
 // GODEBUG=asynctimerchan=1).  It is given the script's length plus two seconds.
-func runRealOnce(sc Script) Obs {
+// noisy: a probe goroutine sleeping a third of a unit over and over woke up more than a third of a unit late
+// at some point of the repetition: the machine did not deliver the script's unit, the repetition is not used.
+func runRealOnce(sc Script) (o Obs, noisy bool) {
 	st := &shared{calls: make([]string, len(expand(sc.Calls))), dup: "None"}
 	for i := range st.calls {
 		st.calls[i] = "Hung"
@@ -478,15 +480,34 @@ func runRealOnce(sc Script) Obs {
 		defer close(done)
 		body(sc, st)
 	}()
+	step := time.Duration(sc.Unit) * time.Millisecond / 3
+	var worst atomic.Int64
+	probeDone := make(chan struct{})
+	go func() {
+		defer close(probeDone)
+		for {
+			select {
+			case <-done:
+				return
+			default:
+			}
+			t := time.Now()
+			time.Sleep(step)
+			if late := int64(time.Since(t) - step); late > worst.Load() {
+				worst.Store(late)
+			}
+		}
+	}()
 	hung := false
 	select {
 	case <-done:
+		<-probeDone
 	case <-time.After(time.Duration((sc.End+8)*sc.Unit)*time.Millisecond + 2*time.Second):
 		hung = true
 	}
 	st.mu.Lock()
 	defer st.mu.Unlock()
-	return collect(st, hung)
+	return collect(st, hung), time.Duration(worst.Load()) > step
 }
 
 // collect: the observation of one repetition (st.mu held).
@@ -1251,6 +1272,7 @@ type Result struct {
 	Hung      int      `json:"hung"`
 	Crashed   string   `json:"crashed,omitempty"` // parent only: the child died on this input
 	AsyncTimer bool    `json:"async_timer,omitempty"` // real-time items: the process had the buffered (pre-1.23) timer channels
+	Noisy     int      `json:"noisy,omitempty"`       // real-time items: repetitions discarded because the machine was late
 }
 
 // child: runs the work items from VERIF_C02_FROM on, one JSON line per finished item.  A panic inside
@@ -1385,9 +1407,15 @@ func realItem(i int, w Work, async bool) Result {
 	res := Result{Index: i, AsyncTimer: async}
 	distinct := map[string]*Obs{}
 	var order []string
-	for k := 0; k < w.Reps; k++ {
-		o := runRealOnce(*w.In.Script)
+	quiet := 0
+	for k := 0; k < 2*w.Reps && quiet < w.Reps; k++ {
+		o, noisy := runRealOnce(*w.In.Script)
 		res.Bubbles++
+		if noisy {
+			res.Noisy++
+			continue
+		}
+		quiet++
 		if o.Hung {
 			res.Hung++
 		}
@@ -1704,6 +1732,21 @@ func TestC02(t *testing.T) {
 		}
 		sc := *in.Script
 		observed := res.Observed
+		if sc.Real && res.Crashed == "" {
+			if res.Noisy > 0 {
+				col.Count(fmt.Sprintf("real-time-repetitions-discarded-machine-late:%d", res.Noisy))
+			}
+			if len(observed) == 0 {
+				// no repetition ran on a quiet machine: nothing was observed, nothing is claimed
+				col.Count("real-time-script-skipped-machine-late")
+				col.Note(fmt.Sprintf("real-time script skipped (every repetition was disturbed by machine load): %s", scriptTerm(sc)))
+				continue
+			}
+			if len(observed) > 1 {
+				col.Count("real-time-repetitions-differ")
+				col.Note(fmt.Sprintf("case %d: the serial repetitions of a real-time script differ (%d distinct outcomes); it counts only if none is acceptable", id, len(observed)))
+			}
+		}
 		if res.Crashed != "" {
 			// the scheduler panicked in one of its own goroutines: reported as a panic outcome
 			calls := make([]string, len(expand(sc.Calls)))
